@@ -167,9 +167,10 @@ def make_info(dtype, C, size, cs, encoding="raw", block=None, sharding=None, ext
     if encoding == "compressed_segmentation":
         sc["compressed_segmentation_block_size"] = list(block or (2, 2, 2))
     if sharding:
-        m, s, p = sharding
+        m, s, p = sharding[:3]
+        ienc, denc = (tuple(sharding[3:5]) + ("raw", "raw"))[:2] if len(sharding) > 3 else ("raw", "raw")
         sc["sharding"] = {"@type": "neuroglancer_uint64_sharded_v1", "minishard_bits": m, "shard_bits": s, "preshift_bits": p,
-                          "hash": "identity", "minishard_index_encoding": "raw", "data_encoding": "raw"}
+                          "hash": "identity", "minishard_index_encoding": ienc, "data_encoding": denc}
     return dict(type="image", data_type=dtype, num_channels=C, scales=[sc] + list(extra_scales))
 
 
